@@ -129,6 +129,32 @@ CHECKS = {
 }
 
 
+# what the sixth round of seeded changes added to each check (appended to the level text)
+ADDENDA = {
+    "C01": "Every third program is also spread over 2-4 modules and compiled in three file orders.",
+    "C02": "Also: every declaration form of a function named like the C symbols the builtins are lowered to (abort, snprintf, write ...) next to every builtin use.",
+    "C03": "Also: functions named like the builtins' C symbols must be defined under their own name, alone and imported.",
+    "C04": "Also a metamorphic family on the `return` label: 110 bodies once with `return: x` and once with the value missing must give the same label diagnostics (plus E335).",
+    "C05": "Also across modules: chains of 3-4 modules and a diamond x 5 uses of a constant of a file that is not imported, in every file order.",
+    "C06": "Also through the real binary: programs of 1-3 files with the linted branch in every subset of files, every file order, emit and run - `[L1800]` must be shown once per linted branch.",
+    "C07": "Also negated literals with an unsigned suffix at nine magnitudes (2^127 among them) in three spellings for every unsigned type (E550).",
+    "C08": "Also a writing call on the address of a view member / constant / value parameter in 16 expression positions (assignment-target indices among them), each with an accepted twin on a variable.",
+    "C09": "Also hexadecimal and binary literals in char8 contexts (14 values x 4 spellings x 5 contexts).",
+    "C10": "Size-of relations also for arrays of 2^20+1 .. 2^32-1 elements (native) and up to 2^27+2 (wasm).",
+    "C11": "Also modules of 13-117 dependent declarations (constant and structure chains with named lengths) in 120 orders each.",
+    "C12": "Also ten directory layouts with modules of the same file name below, beside and above the importer, in every file order.",
+    "C13": "Also operator chains (3-6 operands, 8 operators, one line and several) with the mistyped operand at every later position: an E551 must overlap the offending operator or operand.",
+    "C14": "Illegal lexemes also with two independent defects (too big and bad suffix; leading zero and a further defect).",
+    "C15": "Also modules of exactly T tokens for every T around the token limit (65536), complete or cut off at 11 places of their last declaration, in both builds.",
+    "C16": "Also balanced expressions of 16-1000 operands and flat chains up to 64 in 14 expression positions; import paths with ./, ../, doubled separators, spaces, non-ASCII.",
+    "C18": "Also sources that arrive through named pipes (every valid input x subcommand x 4 option sets).",
+    "C20": "Import paths with ./, ././, ../, doubled and trailing separators, spaces and non-ASCII characters are part of the generated modules.",
+}
+for _pid, _t in ADDENDA.items():
+    CHECKS[_pid]["text"] = CHECKS[_pid]["text"].rstrip() + " " + _t
+
+
+
 def main():
     checks = []
     for pid in sorted(CHECKS):
